@@ -54,6 +54,9 @@ Ltac nofuel H := left; cbn [snd fst]; rewrite H; cbn [snd fst]; try exact H; try
 Section Mono.
   Variables ex ex' : exec_t.
   Hypothesis Hex : exle ex ex'.
+  (* two programs that agree on the clause list of every predicate (e.g. the same program) *)
+  Variables prog prog' : program.
+  Hypothesis Hprog : forall f n, clauses_of prog f n = clauses_of prog' f n.
 
   Lemma do_call_mono : forall g extra s k k', kle k k' -> ole (do_call ex g extra s k) (do_call ex' g extra s k').
   Proof.
@@ -201,10 +204,10 @@ Section Mono.
       apply ole_refl.
   Qed.
 
-  Lemma exec_step_mono : forall prog g cb s k k', kle k k' ->
-    ole (exec_step ex prog g cb s k) (exec_step ex' prog g cb s k').
+  Lemma exec_step_mono : forall g cb s k k', kle k k' ->
+    ole (exec_step ex prog g cb s k) (exec_step ex' prog' g cb s k').
   Proof.
-    intros prog g cb s k k' Hk. unfold exec_step.
+    intros g cb s k k' Hk. unfold exec_step.
     destruct (classify g).
     - apply Hk.
     - apply ole_refl.
@@ -214,7 +217,7 @@ Section Mono.
     - apply do_ite_mono; exact Hk.
     - apply do_naf_mono; exact Hk.
     - apply do_call_mono; exact Hk.
-    - unfold do_user. destruct (clauses_of prog f (List.length args)); [apply ole_refl |].
+    - unfold do_user. rewrite <- Hprog. destruct (clauses_of prog f (List.length args)); [apply ole_refl |].
       apply try_clauses_mono; exact Hk.
     - unfold do_det. destruct (run_det d s); try apply ole_refl. apply Hk.
     - apply pre_ole. apply Hk.
@@ -229,13 +232,17 @@ Section Mono.
   Qed.
 End Mono.
 
-Lemma exec_mono : forall prog n m, (n <= m)%nat -> exle (exec n prog) (exec m prog).
+Lemma exec_mono2 : forall prog prog', (forall f n, clauses_of prog f n = clauses_of prog' f n) ->
+  forall n m, (n <= m)%nat -> exle (exec n prog) (exec m prog').
 Proof.
-  intros prog n. induction n as [| n IH]; intros m Hle g cb s k k' Hk.
+  intros prog prog' Hp n. induction n as [| n IH]; intros m Hle g cb s k k' Hk.
   - left. reflexivity.
   - destruct m as [| m]; [lia |]. cbn [exec].
-    apply exec_step_mono; [| exact Hk]. apply IH. lia.
+    apply exec_step_mono; [| exact Hp | exact Hk]. apply IH. lia.
 Qed.
+
+Lemma exec_mono : forall prog n m, (n <= m)%nat -> exle (exec n prog) (exec m prog).
+Proof. intros prog. apply exec_mono2. reflexivity. Qed.
 
 Lemma solve_raw_mono : forall prog q tmpl n m, (n <= m)%nat ->
   ole (solve_raw n prog q tmpl) (solve_raw m prog q tmpl).
@@ -259,3 +266,213 @@ Proof.
   intros prog q tmpl n m a b l Hle H. rewrite <- H. apply solve_fuel_mono_lemma; [exact Hle |].
   rewrite H. discriminate.
 Qed.
+
+(* the interpreter looks at the program only through clauses_of: programs with the same per-predicate clause
+   sequences give the same completed runs *)
+Theorem solve_depends_on_clauses_of : forall prog prog' q tmpl n a b l,
+  (forall f k, clauses_of prog f k = clauses_of prog' f k) ->
+  solve n prog q tmpl = Done a b l -> solve n prog' q tmpl = Done a b l.
+Proof.
+  intros prog prog' q tmpl n a b l Hp H. unfold solve in *.
+  assert (Ho : ole (solve_raw n prog q tmpl) (solve_raw n prog' q tmpl)).
+  { unfold solve_raw. apply (exec_mono2 prog prog' Hp n n); [lia | apply kle_refl]. }
+  destruct Ho as [Ho | Ho].
+  - unfold result_of in H. rewrite Ho in H. discriminate.
+  - rewrite <- Ho. exact H.
+Qed.
+
+(* ================================================================== control laws *)
+(* a run of query q for the answer template tmpl, with the variables of q and tmpl below c *)
+Definition run (c : N) (n : nat) (prog : program) (q tmpl : term) : outcome :=
+  exec n prog q c (mkst [] (c + 1)) (top_k tmpl).
+
+Lemma solve_raw_is_run : forall n prog q tmpl,
+  solve_raw n prog q tmpl = run (N.max (nvars q) (nvars tmpl)) n prog q tmpl.
+Proof. reflexivity. Qed.
+
+Definition t_conj (a b : term) : term := Cmp n_comma [a; b].
+Definition t_disj (a b : term) : term := Cmp n_semi [a; b].
+Definition t_ite (c t e : term) : term := Cmp n_semi [Cmp n_arrow [c; t]; e].
+Definition t_naf (g : term) : term := Cmp n_naf [g].
+Definition t_call (g : term) : term := Cmp n_call [g].
+Definition t_once (g : term) : term := Cmp n_once [g].
+Definition t_cut : term := Atom n_cut.
+
+Lemma pre_nil : forall o, pre [] o = o.
+Proof. intros [ev sg]. reflexivity. Qed.
+
+Lemma exec_S : forall n prog g cb s k, exec (S n) prog g cb s k = exec_step (exec n prog) prog g cb s k.
+Proof. reflexivity. Qed.
+
+(* (G1 , G2): G2 is run, in order, on every solution of G1 *)
+Theorem conj_law : forall n prog a b cb s k,
+  exec (S n) prog (t_conj a b) cb s k = exec n prog a cb s (fun s' => exec n prog b cb s' k).
+Proof. reflexivity. Qed.
+
+Theorem true_law : forall n prog cb s k, exec (S n) prog t_true cb s k = k s.
+Proof. reflexivity. Qed.
+
+Theorem fail_law : forall n prog cb s k, exec (S n) prog t_fail cb s k = ([], SNorm).
+Proof. reflexivity. Qed.
+
+(* (true , G) = G *)
+Theorem true_conj_law : forall n prog g cb s k,
+  exec (S (S n)) prog (t_conj t_true g) cb s k = exec (S n) prog g cb s k.
+Proof. reflexivity. Qed.
+
+Theorem solve_true_conj : forall n prog g tmpl,
+  solve (S (S n)) prog (t_conj t_true g) tmpl = solve (S n) prog g tmpl.
+Proof.
+  intros n prog g tmpl. unfold solve, solve_raw.
+  assert (Hv : nvars (t_conj t_true g) = nvars g).
+  { unfold t_conj, t_true. cbn [nvars fold_right]. lia. }
+  rewrite Hv. rewrite true_conj_law. reflexivity.
+Qed.
+
+(* (G1 ; G2), G1 not an if-then: the solutions of G1 followed by the solutions of G2, unless G1 ends with a cut or an exception *)
+Theorem disj_law : forall n prog a b cb s k, is_arrow a = None ->
+  exec (S n) prog (t_disj a b) cb s k = seq (exec n prog a cb s k) (fun _ => exec n prog b cb s k).
+Proof.
+  intros n prog a b cb s k Ha. rewrite exec_S. unfold exec_step, t_disj.
+  change (classify (Cmp n_semi [a; b])) with (match is_arrow a with Some (c, th) => GIte c th b | None => GDisj a b end).
+  rewrite Ha. reflexivity.
+Qed.
+
+Lemma answers_app : forall e1 e2, answers_of (e1 ++ e2) = answers_of e1 ++ answers_of e2.
+Proof. induction e1 as [| [t | t] r IH]; intros e2; cbn; [reflexivity | rewrite IH; reflexivity | apply IH]. Qed.
+
+Lemma log_app : forall e1 e2, log_of (e1 ++ e2) = log_of e1 ++ log_of e2.
+Proof. induction e1 as [| [t | t] r IH]; intros e2; cbn; [reflexivity | apply IH | rewrite IH; reflexivity]. Qed.
+
+(* answers (G1 ; G2) = answers G1 ++ answers G2 (and the logs, and the exception of G2) when the run of G1 ends normally *)
+Theorem disj_answers_law : forall c n prog a b tmpl, is_arrow a = None ->
+  snd (run c n prog a tmpl) = SNorm ->
+  answers_of (fst (run c (S n) prog (t_disj a b) tmpl)) =
+    answers_of (fst (run c n prog a tmpl)) ++ answers_of (fst (run c n prog b tmpl))
+  /\ log_of (fst (run c (S n) prog (t_disj a b) tmpl)) =
+    log_of (fst (run c n prog a tmpl)) ++ log_of (fst (run c n prog b tmpl))
+  /\ snd (run c (S n) prog (t_disj a b) tmpl) = snd (run c n prog b tmpl).
+Proof.
+  intros c n prog a b tmpl Ha Hn. unfold run in *. rewrite disj_law by exact Ha.
+  unfold seq. rewrite Hn. unfold pre. cbn [fst snd].
+  rewrite answers_app, log_app. auto.
+Qed.
+
+(* (fail ; G) = G *)
+Theorem fail_disj_law : forall n prog g cb s k,
+  exec (S (S n)) prog (t_disj t_fail g) cb s k = exec (S n) prog g cb s k.
+Proof.
+  intros. rewrite disj_law by reflexivity. rewrite fail_law. unfold seq. cbn [snd fst]. apply pre_nil.
+Qed.
+
+(* cut: the continuation runs, then the alternatives up to the clause's frame are discarded *)
+Theorem cut_law : forall n prog cb s k, snd (k s) = SNorm ->
+  exec (S n) prog t_cut cb s k = (fst (k s), SCut cb).
+Proof. intros n prog cb s k H. rewrite exec_S. unfold exec_step. cbn. rewrite H. reflexivity. Qed.
+
+(* a clause body that ends with a cut signal for its own frame: the remaining clauses are not tried *)
+Theorem clause_cut_law : forall ex c rest args id s k s' o,
+  unify ufuel (sub s) (zip_terms (map (shift (ctr s)) (head_args (fst c))) args) = UOk s' ->
+  o = ex (shift (ctr s) (snd c)) id (mkst s' (ctr s + clause_nvars c)) k ->
+  snd o = SCut id ->
+  try_clauses ex (c :: rest) args id s k = (fst o, SNorm).
+Proof.
+  intros ex c rest args id s k s' o Hu Ho Hc. cbn [try_clauses]. rewrite Hu. rewrite <- Ho. rewrite Hc.
+  rewrite N.eqb_refl. reflexivity.
+Qed.
+
+(* ... and without a cut the next clauses are tried after it *)
+Theorem clause_next_law : forall ex c rest args id s k s' o,
+  unify ufuel (sub s) (zip_terms (map (shift (ctr s)) (head_args (fst c))) args) = UOk s' ->
+  o = ex (shift (ctr s) (snd c)) id (mkst s' (ctr s + clause_nvars c)) k ->
+  snd o = SNorm ->
+  try_clauses ex (c :: rest) args id s k = pre (fst o) (try_clauses ex rest args id s k).
+Proof.
+  intros ex c rest args id s k s' o Hu Ho Hc. cbn [try_clauses]. rewrite Hu. rewrite <- Ho. rewrite Hc. reflexivity.
+Qed.
+
+(* call/N is opaque to cut: it never passes on a cut signal for its own frame *)
+Theorem call_opaque_law : forall ex g extra s k id,
+  snd (do_call ex g extra s k) = SCut id -> id <> ctr s.
+Proof.
+  intros ex g extra s k id H. unfold do_call in H.
+  destruct (add_args (apply (sub s) g) extra) as [goal | formal]; [| cbn in H; discriminate].
+  destruct (body_ok goal); [| cbn in H; discriminate].
+  unfold uncut in H.
+  destruct (ex goal (ctr s) (bump s) k) as [ev sg].
+  cbn [snd fst] in H.
+  destruct sg as [| id1 | | |]; cbn [snd] in H; try discriminate.
+  destruct (id1 =? ctr s) eqn:E2; cbn [snd] in H.
+  - discriminate.
+  - injection H as H. subst id1. apply N.eqb_neq. exact E2.
+Qed.
+
+(* call((G, !)) at clause level: the cut inside call/1 does not cut the caller: the signal of call(G) is never the caller's
+   own cut unless the continuation raised it -- and the whole  \+ , once, -> condition constructs are built on do_call / a fresh frame *)
+
+(* if-then-else: Then runs on the FIRST solution of the condition (its other solutions are discarded) *)
+Theorem ite_then_law : forall n prog c t e cb s k s',
+  snd (exec n prog c (ctr s) (bump s) (commit_k (ctr s))) = SCommit (ctr s) s' ->
+  exec (S n) prog (t_ite c t e) cb s k =
+    pre (fst (exec n prog c (ctr s) (bump s) (commit_k (ctr s)))) (exec n prog t cb s' k).
+Proof.
+  intros n prog c t e cb s k s' H. rewrite exec_S. unfold exec_step.
+  change (classify (t_ite c t e)) with (GIte c t e). unfold do_ite. rewrite H. rewrite N.eqb_refl. reflexivity.
+Qed.
+
+(* ... and Else runs, with no bindings from the condition, when the condition has no solution *)
+Theorem ite_else_law : forall n prog c t e cb s k,
+  snd (exec n prog c (ctr s) (bump s) (commit_k (ctr s))) = SNorm ->
+  exec (S n) prog (t_ite c t e) cb s k =
+    pre (fst (exec n prog c (ctr s) (bump s) (commit_k (ctr s)))) (exec n prog e cb (bump s) k).
+Proof.
+  intros n prog c t e cb s k H. rewrite exec_S. unfold exec_step.
+  change (classify (t_ite c t e)) with (GIte c t e). unfold do_ite. rewrite H. reflexivity.
+Qed.
+
+(* a cut inside the condition is local to the condition *)
+Theorem ite_cond_cut_local_law : forall n prog c t e cb s k,
+  snd (exec n prog c (ctr s) (bump s) (commit_k (ctr s))) = SCut (ctr s) ->
+  exec (S n) prog (t_ite c t e) cb s k =
+    pre (fst (exec n prog c (ctr s) (bump s) (commit_k (ctr s)))) (exec n prog e cb (bump s) k).
+Proof.
+  intros n prog c t e cb s k H. rewrite exec_S. unfold exec_step.
+  change (classify (t_ite c t e)) with (GIte c t e). unfold do_ite. rewrite H. rewrite N.eqb_refl. reflexivity.
+Qed.
+
+(* \+ G succeeds exactly once, without bindings, iff call(G) has no solution; it fails iff call(G) has one *)
+Theorem naf_succeeds_law : forall n prog g cb s k,
+  snd (do_call (exec n prog) g [] (bump s) (commit_k (ctr s))) = SNorm ->
+  exec (S n) prog (t_naf g) cb s k =
+    pre (fst (do_call (exec n prog) g [] (bump s) (commit_k (ctr s)))) (k (bump s)).
+Proof.
+  intros n prog g cb s k H. rewrite exec_S. unfold exec_step.
+  change (classify (t_naf g)) with (GNaf g). unfold do_naf. rewrite H. reflexivity.
+Qed.
+
+Theorem naf_fails_law : forall n prog g cb s k s',
+  snd (do_call (exec n prog) g [] (bump s) (commit_k (ctr s))) = SCommit (ctr s) s' ->
+  exec (S n) prog (t_naf g) cb s k = (fst (do_call (exec n prog) g [] (bump s) (commit_k (ctr s))), SNorm).
+Proof.
+  intros n prog g cb s k s' H. rewrite exec_S. unfold exec_step.
+  change (classify (t_naf g)) with (GNaf g). unfold do_naf. rewrite H. rewrite N.eqb_refl. reflexivity.
+Qed.
+
+(* once(G) = (G -> true ; fail): only the first solution of G *)
+Theorem once_law : forall n prog g cb s k,
+  exec (S n) prog (t_once g) cb s k = exec (S n) prog (t_ite g t_true t_fail) cb s k.
+Proof. reflexivity. Qed.
+
+Theorem once_first_law : forall n prog g cb s k s',
+  snd (exec (S n) prog g (ctr s) (bump s) (commit_k (ctr s))) = SCommit (ctr s) s' ->
+  exec (S (S n)) prog (t_once g) cb s k =
+    pre (fst (exec (S n) prog g (ctr s) (bump s) (commit_k (ctr s)))) (k s').
+Proof.
+  intros n prog g cb s k s' H. rewrite once_law. rewrite (ite_then_law (S n) prog g t_true t_fail cb s k s' H).
+  reflexivity.
+Qed.
+
+(* forall(C, A) is \+ (C, \+ A) *)
+Theorem forall_law : forall n prog c a cb s k,
+  exec (S n) prog (Cmp n_forall [c; a]) cb s k = exec n prog (t_naf (t_conj c (t_naf a))) cb s k.
+Proof. reflexivity. Qed.
